@@ -45,7 +45,7 @@ REG.bounded_check("C01.instrumented_execution", ["C01"], "C01.bounded",
                   bound="14 programs x 1-4 argument tuples: every evaluated Name/Subscript/Call/BinOp/IfExp/BoolOp/Compare node's runtime value must belong to its inferred type (annotate_code)")
 REG.bounded_check("C10.determinism", ["C10"], "C10.bounded",
                   covers=["the whole checker on the corpus: union member order, listed names, message text"],
-                  bound="14 source files (format mapping keys, unexpected keywords, or/and narrowing, `in` narrowing, unused variables, branch unions, protocols, overloads, try/with definitions, nested functions, stdlib calls) x PYTHONHASHSEED in {0,1,2,3,7} in fresh subprocesses; two check orders in one process; one Checker shared by all files (both orders) against the fresh-Checker baseline; module-name tokens normalised")
+                  bound="13 source files (format mapping keys, unexpected keywords, or/and narrowing, `in` narrowing, unused variables, branch unions, protocols, overloads, try/with definitions, nested functions, stdlib calls) x PYTHONHASHSEED in {0,1,2,3,7} in fresh subprocesses; two check orders in one process; one Checker shared by all files (both orders) against the fresh-Checker baseline; module-name tokens normalised")
 REG.bounded_check("C19.literal_operations", ["C19"], "C19.bounded",
                   covers=["NameCheckVisitor.visit_BinOp / visit_UnaryOp / _check_dunder_call", "signature._maybe_perform_call", "attributes._get_attribute_from_known / _get_attribute_from_mro",
                           "implementation subscript impls (tuple / str / list __getitem__)"],
